@@ -24,7 +24,7 @@ def main():
     else:
         s += '\n' + block + '\n'
     open(p, 'w').write(s)
-    print(len(rows), 'seeded changes,', sum(1 for r in rows if '| yes |' in r.split('|', 5)[-1]), 'caught')
+    print(len(rows), 'seeded changes,', sum(1 for r in rows if r.split('|')[5].strip().startswith('yes')), 'caught by the owning quick check')
 
 
 if __name__ == '__main__':
